@@ -222,6 +222,62 @@ def availableBalance (fs : FeeSchedule) (orders : List Order) (acct : Account) :
   (sumReserved fs acct orders).map fun debit =>
     ((acct.value : Int) - debit).emod (18446744073709551616 : Int) |>.toNat
 
+/-! ## every value Go holds in an `int64` while computing `ReservedValue`
+
+Closed form of `reservedValue` (`n0 = U / m`, `r = U % m`; the Go condition `maxNumMatches*minMatchSize < totalSats`
+is `r ≠ 0`, and then `rem = m + r`) together with the list of all integer intermediates of the computation, in
+program order. `PoolProofs.C11Overflow` proves the closed form equal to `reservedValue` and every listed value inside
+the `int64` range whenever `inDomain` holds. -/
+
+/-- intermediates of `executionFee(amount, schedule)`: `amt * feeRate`, `… / 1_000_000`, `base + …` -/
+def execFeeParts (fs : FeeSchedule) (amount : Nat) : List Int :=
+  [((amount * fs.feeRate : Nat) : Int), ((amount * fs.feeRate / execFeeRateDivisor : Nat) : Int),
+   (executionFee fs amount : Int)]
+
+/-- intermediates of the `perMatchDelta` closure for a match of `amt` (bid: `takerDelta`, ask: `makerDelta`) -/
+def perMatchParts (fs : FeeSchedule) (o : Order) (amt : Nat) : List Int :=
+  if o.isBid then
+    let base := bidPremiumAmt o amt
+    let p : Int := premium base o.fixedRate o.leaseDuration
+    [(base : Int), p, -p, -p - (o.selfChanBalance : Int)] ++ execFeeParts fs base ++ [bidPerMatch fs o amt]
+  else
+    let p : Int := premium amt o.fixedRate o.leaseDuration
+    [(amt : Int), p, -(amt : Int), -(amt : Int) + p] ++ execFeeParts fs amt ++ [askPerMatch fs o amt]
+
+/-- intermediates of `EstimateTraderFee` / `FeeForWeight` -/
+def traderFeeParts (k feeRate ver : Nat) : List Int :=
+  [(traderWeight k ver : Int), ((feeRate * traderWeight k ver : Nat) : Int), (estimateTraderFee k feeRate ver : Int)]
+
+/-- the closure `perMatchDelta` of `Ask/Bid.ReservedValue` -/
+def perMatch (fs : FeeSchedule) (o : Order) : Nat → Int :=
+  if o.isBid then bidPerMatch fs o else askPerMatch fs o
+
+/-- `balanceDelta` of `reservedValue` just before the final sign test, in closed form -/
+def closedBalanceDelta (fs : FeeSchedule) (o : Order) (ver : Nat) : Int :=
+  let U := toSatoshis o.unitsUnfulfilled
+  let m := toSatoshis o.minUnitsMatch
+  let fee1 : Int := estimateTraderFee 1 o.maxBatchFeeRate ver
+  if U % m ≠ 0 then
+    (((U / m : Nat) : Int) - 1) * perMatch fs o m + perMatch fs o (m + U % m) - (((U / m : Nat) : Int) - 1) * fee1 - fee1
+  else
+    ((U / m : Nat) : Int) * perMatch fs o m - ((U / m : Nat) : Int) * fee1
+
+/-- all `int64` intermediates of `ReservedValue` for an active order with a non-zero minimum match -/
+def reservedIntermediates (fs : FeeSchedule) (o : Order) (ver : Nat) : List Int :=
+  let U := toSatoshis o.unitsUnfulfilled
+  let m := toSatoshis o.minUnitsMatch
+  let n0 : Int := ((U / m : Nat) : Int)
+  let fee1 : Int := estimateTraderFee 1 o.maxBatchFeeRate ver
+  let pm := perMatch fs o
+  [(U : Int), (m : Int), n0, n0 * m] ++ perMatchParts fs o m ++ traderFeeParts 1 o.maxBatchFeeRate ver ++
+  (if U % m ≠ 0 then
+    [n0 - 1, (n0 - 1) * m, ((m + U % m : Nat) : Int)] ++ perMatchParts fs o (m + U % m) ++
+    [(n0 - 1) * pm m, (n0 - 1) * pm m + pm (m + U % m), (n0 - 1) * fee1,
+     (n0 - 1) * pm m + pm (m + U % m) - (n0 - 1) * fee1]
+   else
+    [n0 * pm m, n0 * fee1]) ++
+  [closedBalanceDelta fs o ver, -closedBalanceDelta fs o ver]
+
 /-! ## the domain in which Go's fixed-width arithmetic agrees with the model -/
 
 /-- largest number of matches the reserve is computed for -/
